@@ -16,7 +16,7 @@ RULES = {
     'C02.R5': 'right operand unchanged: taken by shared reference, never written through; the only interior-mutable field (polytope_cache) is scratch, cleared before use and before return',
 }
 WITNESSES = ['C02OperandBehindSharedRef', 'C02ComposeBorrowsOperand', 'C02ScratchCacheIsPrivate']  # thorough tier: compile_fail witnesses in /verif/witness
-FLOORS = {'C02.R1': 4, 'C02.R2': 4, 'C02.R3': 6, 'C02.R4': 7, 'C02.R5': 6}
+FLOORS = {'C02.R1': 4, 'C02.R2': 4, 'C02.R3': 7, 'C02.R4': 7, 'C02.R5': 6}
 EXPLANATION = ('R1-R3 give a node-by-node simulation: the copy of g under terminal t routes x exactly as g routes T_t(x) and returns g(T_t(x)); missing children of the '
                'operand are missing in the copy (definedness). Surviving nodes keep their indices because the only writes are in-place updates of terminals and Slab insertions.')
 DOES_NOT_DECIDE = 'floating-point rounding near a hyperplane'
@@ -176,6 +176,15 @@ def kernels(ctx, F):
         ok = len(ws) == 1 and is_call(ws[0][5], 'AffFuncBase::compose') and ws[0][5][2][0] == ('param', 'aff') and s(ws[0][5][2][1]) == s(ws[0][4]) \
             and s(node_of(ws[0][4])[1]) == s(('param', 'node'))
         (ctx.ok if ok else ctx.bad)('C02.R3', 'AffTree::apply_func_at_node', 'node.aff := aff∘node.aff (same node)' if ok else 'apply_func_at_node does not store aff∘old at the node', b.span)
+    # apply_func(a) = composition with the affine tree a: every terminal is rewritten, unconditionally (instance shared with C04.R2)
+    from ..core import Ctx
+    from . import c04
+    sub = Ctx(ctx.facts, ctx.tier, ctx.prop)
+    c04.r2(sub)
+    for i in sub.insts:
+        if i.site.startswith('AffTree::apply_func#'):
+            i.rule = 'C02.R3'
+            ctx.insts.append(i)
 
 
 def r4(ctx, F):
